@@ -31,7 +31,8 @@ Narrowing against DESIGN C30 (budget set by the maintainer: <= 1500 CPU-s for
 the quick tier): quick = 4 C programs + 1 C3 program x 2 levels + 1 assembler
 input per target (132 builds x 6 processes) instead of 8 programs x 8
 processes; hash seeds 3 and 4, a second random seed, a second same-seed pair
-and a second pre-loaded process are thorough-tier only (40 C + 8 C3 programs).
+and a second pre-loaded process are thorough-tier only (24 C + 6 C3 programs
+x 11 processes = 8052 builds instead of 40 programs).
 
 While one of the four open findings (all in target-independent code that every
 C/C3 compile runs through) is open, only the assembler inputs are compiled in
@@ -786,13 +787,13 @@ def avoided(avoid, target, level, kind):
 def inputs_for(tier):
     if tier == "quick":
         return ["c-%d" % i for i in range(4)] + ["c3-0"]  # 11 builds per target: 4 C + 1 C3 at two levels, 1 asm
-    return ["c-%d" % i for i in range(40)] + ["c3-%d" % i for i in range(8)]
+    return ["c-%d" % i for i in range(24)] + ["c3-%d" % i for i in range(6)]
 
 
 def plan(tier, seed, avoid):
     specs = []
     inputs = inputs_for(tier)
-    chunk = 6 if tier == "quick" else 8
+    chunk = 6 if tier == "quick" else 10
     for target in TARGETS:
         for k in range(0, len(inputs), chunk):
             specs.append({"target": target, "levels": LEVELS, "inputs": inputs[k:k + chunk] + (["asm"] if k == 0 else [])})
@@ -802,16 +803,19 @@ def plan(tier, seed, avoid):
 def floors(tier):
     from vlib.core import open_keys
 
+    # every floor is <= 40% of what the quick tier observes (the counts are fixed by the plan, only builds that
+    # exhaust their budget or fail on a weak target vary)
     if any(k in RA_KEYS for k in open_keys(PROPERTY)):
-        # only the assembler inputs are swept: 12 targets x 5 comparisons x 2 digests
-        return {"evaluations": 110, "distinct_nontrivial": 12, "observed.clause.hashseed": 66,
-                "observed.clause.fresh_process_same_seed": 22, "observed.clause.after_prior_compiles": 22,
-                "observed.targets_built": 12, "observed.avoided": 1}
-    # full sweep: 12 targets x 11 builds x 5 comparisons x 2 digests = 1320 (avr C/C3 builds fail, still compared)
-    return {"evaluations": 1000, "distinct_nontrivial": 80, "observed.clause.hashseed": 600,
-            "observed.clause.fresh_process_same_seed": 200, "observed.clause.after_prior_compiles": 200,
-            "observed.targets_built": 12, "observed.kinds.c": 80, "observed.kinds.c3": 20, "observed.kinds.asm": 12,
-            "observed.levels.0": 50, "observed.levels.2": 50}
+        # only the assembler inputs are swept: 12 targets x 5 comparisons x 2 digests = 120
+        return {"evaluations": 48, "distinct_nontrivial": 5, "observed.clause.hashseed": 28,
+                "observed.clause.fresh_process_same_seed": 9, "observed.clause.after_prior_compiles": 9,
+                "observed.targets_built": 8, "observed.avoided": 1}
+    # full sweep: 12 targets x 11 builds x 5 comparisons x 2 digests = 1320, 117..122 builds succeed,
+    # clauses 792/264/264, kinds c 96 / c3 24 / asm 12, levels 72/60
+    return {"evaluations": 520, "distinct_nontrivial": 45, "observed.clause.hashseed": 310,
+            "observed.clause.fresh_process_same_seed": 100, "observed.clause.after_prior_compiles": 100,
+            "observed.targets_built": 8, "observed.kinds.c": 38, "observed.kinds.c3": 9, "observed.kinds.asm": 5,
+            "observed.levels.0": 28, "observed.levels.2": 24}
 
 
 def run_shard(spec):
